@@ -79,6 +79,11 @@ def one(ctx: Ctx, cs: int, pname=None, **over):
         if exc is not None or y2 != y:
             ctx.violation('not-a-fixed-point', f'dumps(loads(dumps(d))) != dumps(d): {first_diff(y, y2 or "")}',
                           dict(case, export=y))
+    if 'separator_in_text_cell' in doc.tags:
+        # lyrics / comments containing '@' or '·' (how the plain export treats them is C03's finding): only the fixed point of the
+        # default export is judged on these documents - the extended format cannot carry such a cell unambiguously
+        ctx.mon('documents_with_separator_text (fixed point only)')
+        return
     # (2) through the extended encoding
     z, exc = kpx.dumps(d, encoding=kpx.Enc.eKern)
     if exc is not None:
@@ -141,7 +146,9 @@ def run(ctx: Ctx):
                        'text cells never contain the separator characters @ and · (see C03 finding)']
     n = 260 if ctx.tier == 'quick' else 1500
     for k_, cs in enumerate(cases(ctx, 'c01', n)):
-        if k_ % 6 == 5:
+        if k_ % 12 == 7:
+            one(ctx, cs, 'texty', separator_text=0.35)
+        elif k_ % 6 == 5:
             # invisible barlines (=-, =3-||, =-;): whatever the export does with them (kernpy writes a null), the result is a fixed point
             one(ctx, cs, None, p_hidden_bar=0.3)
         else:
